@@ -36,7 +36,7 @@ META = {
             "blob under every verifier object: answer must be a bool, never an exception, True only for "
             "blobs that still denote the genuine (algorithm, signature value).  Dimension 'signature integer "
             "encoding classes' (ECDSA, every key x every signing object through the real sign_ssh_data, the "
-            "library signer replaced by a textbook signer with harness-chosen nonces k=1,2,..): genuine "
+            "library signer replaced by a textbook signer with nonces from a fixed sequence k_1,k_2,..): genuine "
             "signatures whose r resp. s has every leading byte 0x01..0xff at its natural width, is one byte "
             "short (lead < / >= 0x80), all 7x7 pairs of the boundary classes {01,7f,80,81,ff,short-lo,short-hi} "
             "(thorough: s one byte short with lead 7f/80, two bytes short) must verify under every object of "
@@ -484,7 +484,7 @@ class NonceSigner:
         try:
             self.real.public_key().verify(der, data, signature_algorithm)
         except InvalidSignature:
-            self.bad = "nonce %d: textbook signature rejected by cryptography" % self.k
+            self.bad = "nonce %x: textbook signature rejected by cryptography" % self.k
         self.last = rs
         return der
 
@@ -509,7 +509,7 @@ def r_table_for(curve):
 
 
 def sig_plan(kid, tier):
-    """-> (cases [(label, nonce k, message index)], stats) for one ECDSA key; deterministic, no VERIF_SEED."""
+    """-> (cases [(label, nonce index j, message index)], stats) for one ECDSA key; deterministic, no VERIF_SEED."""
     curve = curve_of(kid)
     d = primary(kid).signing_key.private_numbers().private_value
     rt, lastk = r_table_for(curve)
@@ -521,7 +521,8 @@ def sig_plan(kid, tier):
         else:
             missing.append("r=" + EN.target_label(t))
     st = EN.SWEEP + EN.SHORT + (EN.RARE_S if tier == "thorough" else [])
-    found, lasti = EN.s_search(curve, d, 1, EN.r_of(curve, 1), st, sig_msg, CAP_I)
+    k1 = EN.nonce(curve, 1)
+    found, lasti = EN.s_search(curve, d, k1, EN.r_of(curve, k1), st, sig_msg, CAP_I)
     max_i = max(max_i, lasti)
     for t in st:
         if t in found:
@@ -533,7 +534,7 @@ def sig_plan(kid, tier):
             missing.append("r=%s,s=*" % EN.target_label(tr))
             continue
         k, r = rt[tr]
-        found, lasti = EN.s_search(curve, d, k, r, EN.BOUNDARY, sig_msg, CAP_I)
+        found, lasti = EN.s_search(curve, d, EN.nonce(curve, k), r, EN.BOUNDARY, sig_msg, CAP_I)
         max_i = max(max_i, lasti)
         for ts in EN.BOUNDARY:
             lab = "r=%s,s=%s" % (EN.target_label(tr), EN.target_label(ts))
@@ -541,7 +542,7 @@ def sig_plan(kid, tier):
                 cases.append((lab, k, found[ts][0]))
             else:
                 missing.append(lab)
-    return cases, {"cases": len(cases), "nonces_tried": lastk, "max_nonce_used": max(c[1] for c in cases),
+    return cases, {"cases": len(cases), "nonces_tried": lastk, "max_nonce_index_used": max(c[1] for c in cases),
                    "max_message_index": max_i, "classes_not_reached": missing}
 
 
@@ -564,7 +565,7 @@ def work_sigints(item, acc):
         data = sig_msg(i)
         blobs = {}      # distinct blob -> (first signer oid, (r, s)); verification depends on the blob only
         for soid, sorigin, skey, ns in signers:
-            ns.k, ns.bad = k, None
+            ns.k, ns.bad = EN.nonce(curve, k), None
             try:
                 blob = skey.sign_ssh_data(data).asbytes()
             except Exception as e:   # noqa
@@ -589,7 +590,7 @@ def work_sigints(item, acc):
                 acc.nt(("s", kid, lab, kid2, oid2))
         if lab in ("r=80", "s=short1-hi") and len(acc.samples) < 7:
             blob, (soid, rs) = next(iter(blobs.items()))
-            acc.sample({"case": "nonce-signed " + lab, "key": kid, "nonce": k, "data": data.decode(),
+            acc.sample({"case": "nonce-signed " + lab, "key": kid, "nonce_index": k, "data": data.decode(),
                         "r": "%x" % rs[0], "s": "%x" % rs[1], "blob": blob.hex(),
                         "signers": [x[0] for x in signers], "verifiers": ["%s/%s" % v for v in verifiers]})
 
@@ -654,9 +655,9 @@ def main(tier):
     ck.merge(core.pmap(items, work))
     ck.extra["signature_integer_classes"] = {
         "definition": "class of a positive integer = (bytes short of its natural width, leading byte of its minimal "
-                      "big-endian form); r classes from nonces k=1,2,.. (r = x(kG) mod n), s classes from messages "
+                      "big-endian form); r classes from nonces k_j = SHAKE-256('C35 nonce j') mod (n-1) + 1, j=1,2,.. (r = x(kG) mod n), s classes from messages "
                       "'C35 signature-integer class message #i', i=0,1,..; r sweep: 255 leads + short-lo/short-hi with "
-                      "message #0; s sweep: same (thorough: + short1-7f, short1-80, short2-lo, short2-hi) with nonce 1; "
+                      "message #0; s sweep: same (thorough: + short1-7f, short1-80, short2-lo, short2-hi) with nonce k_1; "
                       "pairs: {01,7f,80,81,ff,short1-lo,short1-hi}^2",
         "per_key": plans}
     ck.extra["keys"] = {kid: sorted("%s(%s)" % (o, KEYS[kid][o][0]) for o in KEYS[kid]) for kid in KEYS}
@@ -676,13 +677,13 @@ def replay(rec):
         sobjs = objs if skid == kid else make_objs(skid, r.get("gen_pem"))
         soid = r.get("signer_oid", r["oid"])
         skey, ns = nonce_copy(sobjs[soid][1], curve_of(skid))
-        ns.k = r["nonce"]
+        ns.k = EN.nonce(curve_of(skid), r["nonce"])
         try:
             blob2 = skey.sign_ssh_data(data).asbytes()
         except Exception as e:   # noqa
-            print("sign_ssh_data (%s/%s, nonce %d) raised %r" % (skid, soid, ns.k, e))
+            print("sign_ssh_data (%s/%s, nonce #%d) raised %r" % (skid, soid, r["nonce"], e))
             return 1
-        print("signed by %s/%s with nonce %d: r=%x s=%x%s" % (skid, soid, ns.k, ns.last[0], ns.last[1],
+        print("signed by %s/%s with nonce #%d: r=%x s=%x%s" % (skid, soid, r["nonce"], ns.last[0], ns.last[1],
                                                               "" if not ns.bad else "  HARNESS: " + ns.bad))
         print("blob=%s" % blob2.hex())
         print("reference reading of the blob: r=%x s=%x" % R.semantics("ecdsa", blob2)[2:4])
